@@ -2,7 +2,8 @@
   C05 — a panic while fakes are installed still restores, unlocks and never aborts.
   A lifetime is a body script (`Panic.Op`) in which a panic may happen at any position and of any
   library-raised kind, followed by the release of the injector in the order the source
-  prescribes (Lock.srcParams.injectorRelease), with the verifier behaving as verifier.rs says.
+  prescribes (two phases: the `Drop::drop` body, then the fields), with the verifier behaving as
+  verifier.rs says.
 -/
 import InjModel.Lemmas.Panic
 import InjModel.Props.C02
@@ -10,18 +11,22 @@ import InjModel.Props.C04
 namespace Inj.Props
 open Inj Inj.Machine Inj.Panic Inj.Generated.Layout
 
-/-- the release order and verifier behaviour read from the source -/
-def srcOrder : List Field := Lock.srcParams.injectorRelease
+/-- the `Drop::drop` body and the field order read from the source -/
+def srcBody : List Field := Generated.Layout.injectorDropBody
+def srcFields : List Field := Generated.Layout.injectorFields
 
 theorem C05_source : Generated.Layout.verifierChecksPanicking = true ∧
-    srcOrder.contains Field.guards = true ∧ srcOrder.contains Field.lock = true ∧
+    srcBody = Field.guards :: srcBody.tail ∧ srcBody.tail.contains Field.lock = false ∧
+    srcFields.contains Field.lock = true ∧ (srcBody ++ srcFields).contains Field.verifiers = true ∧
     Generated.Layout.rawGateBeforeGuard = true ∧ Generated.Layout.asyncGateBeforeGuard = true ∧
     Generated.Layout.boolGateBeforeGuard = true ∧ Generated.Layout.funcPtrRejectsNull = true := by decide
 
 /-- **Any body, any panic point, any pending expectations.**  For every body script — any
     installs, counted / rejected / plain calls, refused installations and a user panic, in any
     order, the first panic ending the body wherever it occurs (or none) — letting go of the
-    injector:
+    injector in two phases as the language prescribes (the `Drop::drop` body as extracted, a
+    panic raised inside it skipping the rest; then the fields in declaration order, a non-empty
+    guard vector dropping oldest first):
       * never aborts the process and raises at most one panic in total
         (none of its own when the body already panicked, at most one otherwise);
       * releases the process-wide guard;
@@ -31,41 +36,31 @@ theorem C05_safe (mode : Mode) (ops : List Op) (s0 : MState) (hg : s0.guards = [
     (hdis : ∀ r ∈ reqsOf mode ⟨s0, [], false⟩ ops, ∀ x, inJit r x → ¬ inSlot r x)
     (hfresh : FreshMaps s0.maps (reqsOf mode ⟨s0, [], false⟩ ops)) :
     let st := runBody mode ⟨s0, [], false⟩ ops
-    let e := scopeExit srcDropOrder Generated.Layout.verifierChecksPanicking srcOrder st
+    let e := scopeExit2 srcDropOrder Generated.Layout.verifierChecksPanicking srcBody srcFields st
     e.abort = false ∧
     (if st.panicked then 1 else 0) + e.newPanics ≤ 1 ∧
     e.lockHeld = false ∧
     (∀ x, (∀ r ∈ reqsOf mode ⟨s0, [], false⟩ ops, ¬ inJit r x) → e.ms.mem x = s0.mem x) ∧
     e.ms.maps = s0.maps ∧ e.ms.guards = [] := by
   intro st e
-  have hcp : Generated.Layout.verifierChecksPanicking = true := C05_source.1
+  obtain ⟨hcp, hb, hl, hfl, _, _⟩ := C05_source
   have hinst := runBody_installs mode ops ⟨s0, [], false⟩
-  have hinit : ExitOK { ms := st.ms, panicking := st.panicked, newPanics := 0, abort := false, lockHeld := true, verifs := st.verifs } :=
-    ⟨rfl, Or.inl rfl⟩
-  have hspec := exitSteps_spec srcDropOrder srcOrder _ hinit
-  obtain ⟨⟨hab, hnp⟩, hlock, hms, hpan⟩ := hspec
-  have he : e = exitSteps srcDropOrder true { ms := st.ms, panicking := st.panicked, newPanics := 0, abort := false, lockHeld := true, verifs := st.verifs } srcOrder := by
-    show scopeExit srcDropOrder Generated.Layout.verifierChecksPanicking srcOrder st = _
-    rw [hcp]; rfl
+  have hspec := scopeExit2_spec srcDropOrder srcBody.tail srcFields st hl
+  simp only at hspec
+  have he : e = scopeExit2 srcDropOrder true (Field.guards :: srcBody.tail) srcFields st := by
+    show scopeExit2 srcDropOrder Generated.Layout.verifierChecksPanicking srcBody srcFields st = _
+    rw [hcp, ← hb]
+  obtain ⟨h1, h2, h3, h4⟩ := hspec
   have hrest := C02_restores mode (reqsOf mode ⟨s0, [], false⟩ ops) s0 st.ms hg hinst hdis hfresh
   simp only at hrest
   have hra : restoreAll srcDropOrder st.ms = { (dropInjector srcDropOrder st.ms) with log := (restoreAll srcDropOrder st.ms).log } := by
     simp only [restoreAll, dropInjector, logEv, C02_source_restores_newest_first]
   rw [he]
-  refine ⟨hab, ?_, ?_, ?_, ?_, ?_⟩
-  · by_cases hp : st.panicked = true
-    · have h0 := hpan hp
-      simp only at h0
-      rw [h0, if_pos hp]
-      exact Nat.le_refl _
-    · rw [if_neg hp]
-      rcases hnp with h0 | ⟨h1, _⟩ <;> omega
-  · rw [hlock, C05_source.2.2.1]; rfl
-  · intro x hx
-    rw [hms, C05_source.2.1, if_pos rfl, hra]
-    exact hrest.1 x hx
-  · rw [hms, C05_source.2.1, if_pos rfl, hra]; exact hrest.2.1
-  · rw [hms, C05_source.2.1, if_pos rfl, hra]; exact hrest.2.2.1
+  refine ⟨h1, h4, ?_, ?_, ?_, ?_⟩
+  · rw [h3, hfl]; rfl
+  · intro x hx; rw [h2, hra]; exact hrest.1 x hx
+  · rw [h2, hra]; exact hrest.2.1
+  · rw [h2, hra]; exact hrest.2.2.1
 
 /-- **A refused installation modifies nothing**: signature mismatch, null pointer and allocation
     failure raise their panic before any byte of the function or any mapping changes (the gates
@@ -75,17 +70,11 @@ theorem C05_refused (mode : Mode) (st : LifeState) (hp : st.panicked = false) (p
   simp [runBody, hp]
 
 /-- **Verification at normal scope exit**: the injector panics iff some pending expectation is
-    unsatisfied — and then exactly once, however many are unsatisfied. -/
+    unsatisfied — and then exactly once, however many are unsatisfied (wherever the source lets
+    the verifiers go: `scopeExit2_newPanics` holds for any body and field order that drops them). -/
 theorem C05_exit_once (st : LifeState) (hp : st.panicked = false) :
-    (scopeExit srcDropOrder true srcOrder st).newPanics = if anyMismatch st.verifs then 1 else 0 := by
-  have horder : srcOrder = [Field.guards, Field.guards, Field.verifiers, Field.lock] := by decide
-  unfold scopeExit
-  rw [horder]
-  simp only [exitSteps, Bool.false_eq_true, if_false]
-  obtain ⟨v1, _, _, _, v5, _⟩ := dropVerifs_spec st.verifs
-    { ms := restoreAll srcDropOrder (restoreAll srcDropOrder st.ms), panicking := st.panicked, newPanics := 0, abort := false, lockHeld := true, verifs := st.verifs } rfl
-  simp only [v1, Bool.false_eq_true, if_false]
-  rw [v5, hp]; simp
+    (scopeExit2 srcDropOrder true srcBody srcFields st).newPanics = if anyMismatch st.verifs then 1 else 0 :=
+  scopeExit2_newPanics srcDropOrder srcBody srcFields st hp C05_source.2.2.2.2.1
 
 /-- non-vacuity: two unsatisfied expectations and no body panic give exactly one panic -/
 example : anyMismatch [(1, 0), (2, 0)] = true := by decide
